@@ -2,6 +2,7 @@ package types
 
 import (
 	"fmt"
+	"reflect"
 )
 
 // JSONValue is an internal type used in storing various types, for converting any type to JSON supported type.
@@ -14,7 +15,11 @@ func ConvertValueList(values []interface{}) ([]interface{}, error) {
 		if val == nil {
 			return nil, fmt.Errorf("null value cannot be inserted")
 		}
-		jsonValues = append(jsonValues, ConvertToJSONSupportedValue(val))
+		converted := ConvertToJSONSupportedValue(val)
+		if converted == nil {
+			return nil, fmt.Errorf("null value cannot be inserted")
+		}
+		jsonValues = append(jsonValues, converted)
 	}
 	return jsonValues, nil
 }
@@ -30,6 +35,9 @@ func ToInterfaceArray(ja []JSONValue) []interface{} {
 
 // ConvertToJSONSupportedValue converts any type of Go into a type that is supported by JSON
 func ConvertToJSONSupportedValue(t interface{}) JSONValue {
+	if rv := reflect.ValueOf(t); rv.Kind() == reflect.Ptr && rv.IsNil() {
+		return nil // a nil pointer of any type is JSON null
+	}
 	switch v := t.(type) {
 	// all number types are stored as float64, i.e., IEEE 754 64 bits floating point type.
 	case int, int8, int16, int32, int64, uint, uint8, uint16, uint32, uint64,
